@@ -2,6 +2,8 @@
 
 package strategy
 
+import "sync/atomic"
+
 // State injection / inspection helpers for harnesses in other packages (add-only, verif-tagged).
 
 // VerifSetSimple imposes counters on a SimpleStrategy.
@@ -27,3 +29,5 @@ func VerifSetPred(s *PredicatePartitionStrategy, total, ba, bb int32) {
 	s.partitions[0].busy = ba
 	s.partitions[1].busy = bb
 }
+
+func atomicAdd(p *int32) int32 { return atomic.AddInt32(p, 1) }
